@@ -163,6 +163,8 @@ def show(t, depth=0):
         return 'undef_%s' % (t[1],)
     if k == 'loopvar':
         return 'loop%s_%s' % (t[1], t[2])
+    if k == 'with':
+        return '%s{%s}' % (show(t[1], d), ', '.join('.%s := %s' % ('.'.join(sp), show(v, d)) for sp, v in t[2]))
     if k == 'closure':
         return 'closure<%s>' % t[1].split('::')[-1]
     if k == 'index':
@@ -228,7 +230,14 @@ class State:
     def read(self, root, path):
         key = (root, path)
         if key in self.mem:
-            return self.mem[key]
+            base = self.mem[key]
+            # components overwritten after the whole was stored (`let mut c = x.clone(); c.f = v; c`): the value read as a
+            # whole is the stored one *with* those components
+            ovs = [(k[1][len(path):], v) for k, v in self.mem.items() if k[0] == root and len(k[1]) > len(path) and k[1][:len(path)] == path
+                   and all(isinstance(q, str) for q in k[1][len(path):])]
+            if ovs and base[0] not in ('tuple', 'adt'):
+                return ('with', base, tuple(sorted(ovs, key=lambda x: str(x[0]))))
+            return base
         # longest stored prefix
         for n in range(len(path) - 1, -1, -1):
             k2 = (root, path[:n])
@@ -270,6 +279,13 @@ def project(t, p):
         if t[0] == 'agg' and t[1] == 'array' and p[1][0] == 'const' and isinstance(p[1][1], int) and 0 <= p[1][1] < len(t[2]):
             return t[2][p[1][1]]        # `let [a, b, ..] = [x, y, ..]`
         return ('index', t, p[1])
+    if t[0] == 'with' and isinstance(p, str):
+        exact = [v for sp, v in t[2] if sp == (p,)]
+        if exact:
+            return exact[-1]
+        deeper = tuple((sp[1:], v) for sp, v in t[2] if len(sp) > 1 and sp[0] == p)
+        inner = project(t[1], p)
+        return ('with', inner, deeper) if deeper else inner
     if t[0] == 'tryopt':
         # `x?` on an Option: the Continue payload is the Some payload, the Break payload is the `None` residual
         if p == 'Continue.0':
